@@ -8,6 +8,7 @@ CONSTANTS
  PatchCL = FALSE
  Mut = "none"
  RecordHist = FALSE
+ Monitor = FALSE
  FullProduct = TRUE
 VIEW View
 INVARIANTS FaultSurfaces NoSilentTruncation CloseWaits NotExistSurfaces NoPartialInput
